@@ -140,6 +140,20 @@ static int tcpListener(std::uint16_t &port, int backlog)
   port = portOf(fd);
   return fd;
 }
+// a port nobody listens on: bound (so the number stays reserved for the whole run and cannot be handed to another
+// socket of the harness) but never put into the listening state, so connections are refused
+static int reservedClosedPort(std::uint16_t &port)
+{
+  int fd = ::socket(AF_INET, SOCK_STREAM, 0);
+  sockaddr_in a{};
+  a.sin_family = AF_INET;
+  a.sin_addr.s_addr = htonl(INADDR_LOOPBACK);
+  ::bind(fd, reinterpret_cast<sockaddr *>(&a), sizeof(a));
+  socklen_t l = sizeof(a);
+  ::getsockname(fd, reinterpret_cast<sockaddr *>(&a), &l);
+  port = ntohs(a.sin_port);
+  return fd;
+}
 static int acceptOne(int lfd, int ms)
 {
   pollfd p{lfd, POLLIN, 0};
@@ -338,9 +352,9 @@ struct Rig
         allFds.push_back(bfd[i]);
       }
       // a closed port
-      { std::uint16_t p; int f = tcpListener(p, 1); refusedPort = p; ::close(f); }
-      { std::uint16_t p; int f = tcpListener(p, 1); inj::syncRefusedPort = p; ::close(f); }
-      { std::uint16_t p; int f = tcpListener(p, 1); inj::eaccesPort = p; ::close(f); }
+      { std::uint16_t p; allFds.push_back(reservedClosedPort(p)); refusedPort = p; }
+      { std::uint16_t p; allFds.push_back(reservedClosedPort(p)); inj::syncRefusedPort = p; }
+      { std::uint16_t p; allFds.push_back(reservedClosedPort(p)); inj::eaccesPort = p; }
       // a listener whose accept queue is full: further SYNs are dropped, the connect stays pending
       holeL = tcpListener(holePort, 0);
       allFds.push_back(holeL);
@@ -789,12 +803,12 @@ static std::string storm(bool udp, int threads, int iters, unsigned seed)
   tr->onError([](TransportError, const std::string &) {});
   if (!tr->start().isOk()) return "STARTFAIL";
   std::uint16_t hport = 0, refusedPort = 0, lport = 0;
-  int hl = -1;
+  int hl = -1, refusedFd = -1;
   std::vector<int> udpPeers;
   if (!udp)
   {
     hl = tcpListener(hport, 256);
-    { std::uint16_t p; int f = tcpListener(p, 1); refusedPort = p; ::close(f); }
+    { std::uint16_t p; refusedFd = reservedClosedPort(p); refusedPort = p; }
   }
   auto lr = tr->addListener("127.0.0.1", 0, TlsMode::None);
   if (!lr.isOk()) { tr->stop(); return "LISTENFAIL"; }
@@ -935,6 +949,7 @@ static std::string storm(bool udp, int threads, int iters, unsigned seed)
   }
   tr.reset();
   if (hl >= 0) ::close(hl);
+  if (refusedFd >= 0) ::close(refusedFd);
   return o.str();
 }
 
